@@ -154,6 +154,31 @@ CHECKS.update({
                                                     "memory checker."),
 })
 
+CHECKS.update({
+    "C13": dict(engine="task", spec="Task.tla (Safe: exclusive poll, no poll after completion, future/output/allocation "
+                                   "released at most once, no use after free; RefsExact, RunnableConsistent, NoLostWake, "
+                                   "NoLeak, NoEarlyFree), Task_Trace.tla",
+                text="Every read-modify-write of the task state word in run / wake / wake_by_ref / clone / drop / cancel / "
+                     "promise poll is one specification step, with ghost ownership of the future, the output and the "
+                     "allocation; TLC explores all interleavings of 2-3 threads x 6 operations over six future scripts; "
+                     "every sequential sequence of handle operations is replayed on the real task (V1 facade: drop "
+                     "counters, poll counters, queued Runnables, promise results) and real threads racing on the handles "
+                     "are validated against the specification by trace validation.",
+                design="6/C13", note="Trusted: TLC/SANY, harness. Interleaving semantics (no weak-memory effects). Release of "
+                                     "memory and of the output is decided on ghost state in the model; a crash of the harness "
+                                     "process under racing threads is reported as a violation."),
+    "C15": dict(engine="seqlock", spec="SeqLock.tla on a view-based release/acquire memory model (NotTorn, Monotone, "
+                                      "NotOlderThanPublished, ValuesWritten), SeqLock_Trace.tla",
+                text="The ordering of every atomic operation of the time cell is extracted from the current source and "
+                     "passed to TLC as constants; TLC explores every interleaving and every admissible reads-from choice "
+                     "of one writer and 1-2 readers; reader threads using Scheduler::time() while the main thread steps, "
+                     "with delays between the two word stores/loads, are validated against SeqLock_Trace.tla.",
+                design="6/C15", note="Trusted: TLC/SANY, the memory-model abstraction (release/acquire views with fences, no "
+                                     "load buffering, append-only modification order), the regular-expression extractor of "
+                                     "orderings (a changed operation skeleton is a tool error unless the run-time part "
+                                     "already shows a violation)."),
+})
+
 PENDING = {}
 
 TITLES = {}
@@ -204,6 +229,14 @@ def main():
                  serves_properties=["C12"],
                  kind_free_text="TLC interleaving exploration + sequential history replay + linearisability checking of "
                                 "real-thread executions by trace validation"),
+            dict(name="task", path="/verif/specs/Task.tla /verif/specs/MC_Task.tla /verif/specs/Task_Trace.tla "
+                                   "/verif/tools/check_task.py /verif/harness/src/taskeng.rs",
+                 serves_properties=["C13"],
+                 kind_free_text="TLC interleaving exploration + sequential replay + trace validation of real threads"),
+            dict(name="seqlock", path="/verif/specs/SeqLock.tla /verif/specs/SeqLock_Trace.tla /verif/tools/orderings.py "
+                                      "/verif/tools/check_seqlock.py /verif/harness/src/timecell.rs",
+                 serves_properties=["C15"],
+                 kind_free_text="TLC on a weak-memory model with orderings extracted from the source + trace validation"),
             dict(name="seqds", path="/verif/specs/Sinks.tla /verif/specs/PQ.tla /verif/specs/PQ_Trace.tla "
                                     "/verif/tools/check_seqds.py /verif/harness/src/seqds.rs",
                  serves_properties=["C17", "C20"],
